@@ -142,7 +142,7 @@ class Emitter:
         self.count += 1
         return "%s%d" % (prefix, self.count)
 
-    DERIVE = "#[derive(Type, Serialize, Deserialize, PartialEq, Debug, Clone)]"
+    DERIVE = "#[derive(Type, Serialize, Deserialize, PartialEq)]"
 
     def ty(self, sh):
         k = sh[0]
@@ -210,7 +210,7 @@ class Emitter:
             self.names[t] = name
             vs = ", ".join("V%d = %d" % (i, d) for i, d in enumerate(sh[2]))
             if sh[1]:
-                self.add_def(sh, "#[repr(%s)]\n#[derive(Type, Serialize_repr, Deserialize_repr, PartialEq, Debug, Clone)]\npub enum %s { %s }"
+                self.add_def(sh, "#[repr(%s)]\n#[derive(Type, Serialize_repr, Deserialize_repr, PartialEq)]\npub enum %s { %s }"
                                  % (sh[1], name, vs))
             else:
                 self.add_def(sh, "%s\npub enum %s { %s }" % (self.DERIVE, name, vs))
@@ -235,7 +235,7 @@ class Emitter:
             name = self.fresh("D")
             self.names[t] = name
             attr = 'signature = "dict"' + ("" if sh[1] == "-" else ', rename_all = "%s"' % sh[1])
-            self.add_def(sh, "#[derive(Type, SerializeDict, DeserializeDict, PartialEq, Debug, Clone)]\n#[zvariant(%s)]\npub struct %s { %s }"
+            self.add_def(sh, "#[derive(Type, SerializeDict, DeserializeDict, PartialEq)]\n#[zvariant(%s)]\npub struct %s { %s }"
                              % (attr, name, ", ".join(fs)))
         else:
             raise ValueError(sh)
@@ -697,7 +697,7 @@ def agree(impl, model):
     return all(a[k] == b[k] or (k == "R" and b[k] == "?") for k in a)
 
 
-def build_batch(shapes, tag):
+def build_batch(shapes, tag, configs=("o", "-")):
     """emit gen_types.rs for the batch, build both configurations, keep copies of the binaries"""
     src = emit_source(shapes)
     path = os.path.join(core.HARNESS, CRATE, "src", "gen_types.rs")
@@ -708,7 +708,8 @@ def build_batch(shapes, tag):
     errs = {}
     outdir = os.path.join(core.BUILD, "c09")
     os.makedirs(outdir, exist_ok=True)
-    for cfg, feats in (("o", ["oaa"]), ("-", None)):
+    for cfg in configs:
+        feats = ["oaa"] if cfg == "o" else None
         b, err = core.cargo_build(CRATE, "debug", feats)
         if b is None:
             errs[cfg] = err
@@ -722,15 +723,16 @@ def build_batch(shapes, tag):
 def custom_run(pid, tier, seed, replay=None):
     t0 = time.time()
     rng = random.Random(seed)
-    coq = core.coq_check(pid, thorough=(tier == "thorough"))
-    zmodel, merr = core.model_build(pid, RUN_MODULE)
+    # the proofs / extraction run while cargo compiles the first batch of generated types
+    from concurrent.futures import ThreadPoolExecutor
+    pool = ThreadPoolExecutor(max_workers=1)
+    fut = pool.submit(lambda: (core.coq_check(pid, thorough=(tier == "thorough")), core.model_build(pid, RUN_MODULE)))
+    coq = zmodel = None
+    merr = ""
     kf = core.known_findings(pid)
     known_classes = {e["class"] for e in kf if e.get("status") == "known"}
     problems, tool_errors = [], []
-    if not coq["ok"]:
-        problems.append({"kind": "proof", "theorem": coq.get("failed_at"), "log": coq["log"][-1500:], "audit": coq["audit"]})
-    if zmodel is None:
-        problems.append({"kind": "proof", "theorem": "model does not build/extract", "log": merr[-1500:]})
+    configs = ("o",) if tier == "quick" else ("o", "-")
 
     # ---- batches of type definitions
     batches = []
@@ -790,18 +792,22 @@ def custom_run(pid, tier, seed, replay=None):
                         shapes.append(parse_text(st))
                     cases.insert(0, (idx[st], " opt " in " " + st + " ", "%d %s | %s | %s" % (idx[st], w[b1 - 1], st, " ".join(w[b2 + 1:]))))
         n_shapes += len(shapes)
-        bins, errs = build_batch(shapes, tag)
+        bins, errs = build_batch(shapes, tag, configs)
+        if coq is None:
+            coq, (zmodel, merr) = fut.result()
+            if not coq["ok"]:
+                problems.append({"kind": "proof", "theorem": coq.get("failed_at"), "log": coq["log"][-1500:], "audit": coq["audit"]})
+            if zmodel is None:
+                problems.append({"kind": "proof", "theorem": "model does not build/extract", "log": merr[-1500:]})
         for cfg, err in errs.items():
             problems.append({"kind": "correspondence", "theorem": "generated types (batch %s, config %s) do not build against /repo" % (tag, cfg),
                              "log": err[-2500:]})
         if zmodel is None:
             continue
-        for cfg in ("o", "-"):
+        for cfg in configs:
             if cfg not in bins:
                 continue
             sel = [ln for (_, oaa_only, ln) in cases if cfg == "o" or not oaa_only]
-            if cfg == "-" and tier == "quick":
-                sel = sel[::2]          # the default configuration shares everything but Option: half the cases
             full = ["%s %s" % (cfg, ln) for ln in sel]
             # canonical case text (what replay files and known_findings carry): "<cfg> <idx> <pos> | shape | values"
             mo = core.run_lines(zmodel, full)
@@ -838,10 +844,12 @@ def custom_run(pid, tier, seed, replay=None):
             if not samples:
                 step = max(1, len(full) // 6)
                 samples = [{"case": c, "impl": i, "model_spec_class": m} for c, i, m in list(zip(full, io, mo))[::step][:8]]
+    if coq is None:
+        coq, (zmodel, merr) = fut.result()
     # extraction vs in-Coq evaluation on a sample
     if zmodel is not None and all_cases:
-        short = [(c, m) for c, m in zip(all_cases, all_model) if len(c) < 400 and len(m) < 1500]
-        pick = rng.sample(short, min(12 if tier == "quick" else 40, len(short)))
+        short = [(c, m) for c, m in zip(all_cases, all_model) if len(c) < 250 and len(m) < 1200]
+        pick = rng.sample(short, min(6 if tier == "quick" else 30, len(short)))
         okx, outx = core.vm_crosscheck(pid, RUN_MODULE, [c for c, _ in pick], [m for _, m in pick])
         if not okx:
             tool_errors.append("extracted model and vm_compute disagree on the sample: " + outx[-400:])
